@@ -2,6 +2,7 @@ import PvlModel.Model.Spec
 import PvlModel.Lemmas.SpecCount
 import PvlModel.Lemmas.ParseSpec
 import PvlModel.Lemmas.ParserCount2
+import PvlModel.Lemmas.SaneAll
 import PvlModel.Gen.Tables
 
 /-!
@@ -260,5 +261,36 @@ theorem saneToks_sane (g : Grammar) (d : Dec) (kind : ParserKind) (text : Str)
 
 /-- an ordinary token is sane (the condition only constrains block keywords) -/
 example : saneText Gen.pvl ⟨Gen.pvl, .pvl⟩ [97] = true := by decide +kernel
+
+
+/-- **C05, block keywords are accounted for — for every text** (strict parser classes, the generated grammar
+    tables, a decoder built on the same table): the token-sanity hypothesis of `C05_blocks_accounted` is a
+    theorem (`sane_all`, `Lemmas/SaneAll.lean`), and the table facts are evaluated.  Whatever the text, if
+    `parse()` returns a module then the begin keywords among the tokens it consumed, and the end keywords among
+    them, are each exactly as many as the blocks in the module. -/
+theorem C05_blocks_accounted_all (g : Grammar) (hg : g ∈ [Gen.pvl, Gen.odl, Gen.pds, Gen.isis, Gen.omni]) (d : Dec)
+    (hd : d.g = g) (kind : ParserKind) (hk : kind ≠ .omni) (text : Str) (m : Items)
+    (h : (parseRun g d kind text).1 = .ok m) :
+    cntG (isBt (cfgOf g d kind text)) (parseRun g d kind text).2.gen + blocksI m =
+      ((lexAll g d text).1.filter (fun t => isBt (cfgOf g d kind text) t.text)).length ∧
+    cntG (isEt (cfgOf g d kind text)) (parseRun g d kind text).2.gen + blocksI m =
+      ((lexAll g d text).1.filter (fun t => isEt (cfgOf g d kind text) t.text)).length := by
+  obtain ⟨hc, hcls⟩ := cfgOK_of_table (cfgOf g d kind text) (cfgOK_tables g hg)
+  have hs : ∀ t ∈ (lexAll g d text).1, Sane (cfgOf g d kind text) t.text :=
+    fun t _ => sane_all (cfgOf g d kind text) hd (saneTable_tables g hg) t.text
+  exact C05_blocks_accounted g d kind text hk hc hcls hs m h
+
+/-- **C05, an unbalanced label is never accepted — for every text**: a strict parser that returns a module
+    having consumed every token has read as many begin keywords as end keywords, and as many as the module has
+    blocks -/
+theorem C05_unbalanced_rejected_all (g : Grammar) (hg : g ∈ [Gen.pvl, Gen.odl, Gen.pds, Gen.isis, Gen.omni]) (d : Dec)
+    (hd : d.g = g) (kind : ParserKind) (hk : kind ≠ .omni) (text : Str) (m : Items)
+    (h : (parseRun g d kind text).1 = .ok m)
+    (hall : (parseRun g d kind text).2.gen.pending = [] ∧ (parseRun g d kind text).2.gen.pushed = none) :
+    ((lexAll g d text).1.filter (fun t => isBt (cfgOf g d kind text) t.text)).length = blocksI m ∧
+    ((lexAll g d text).1.filter (fun t => isEt (cfgOf g d kind text) t.text)).length = blocksI m :=
+  C05_unbalanced_rejected g d kind text hk (cfgOK_tables g hg)
+    (fun t _ => sane_all (cfgOf g d kind text) hd (saneTable_tables g hg) t.text) m h hall
+
 
 end Pvl
